@@ -22,6 +22,7 @@ const (
 	RegShift // Reg>>Imm or Reg<<Imm
 	RegPair  // (Reg, Reg2)
 	Sym      // name(SB) and anything symbolic
+	MemIdx   // Off(Reg)(Reg2*Imm): scaled-index address expression (LEAQ arithmetic only)
 	Unknown
 )
 
@@ -217,6 +218,30 @@ func parseOperand(p string) Operand {
 			return o
 		}
 		o.Kind, o.Reg, o.Reg2 = RegPair, a, b
+	case strings.HasSuffix(p, ")") && strings.Count(p, "(") == 2 && strings.Contains(p, "*"):
+		// off(base)(index*scale)
+		i := strings.Index(p, "(")
+		j := strings.Index(p, ")(")
+		if i < 0 || j < i {
+			return o
+		}
+		base := p[i+1 : j]
+		idx := strings.Split(p[j+2:len(p)-1], "*")
+		if len(idx) != 2 || !isRegName(base) || !isRegName(idx[0]) {
+			return o
+		}
+		sc, err := strconv.ParseUint(idx[1], 0, 64)
+		if err != nil || (sc != 1 && sc != 2 && sc != 4 && sc != 8) {
+			return o
+		}
+		var off int64
+		if i > 0 {
+			off, err = strconv.ParseInt(p[:i], 0, 64)
+			if err != nil {
+				return o
+			}
+		}
+		o.Kind, o.Reg, o.Reg2, o.Imm, o.Off = MemIdx, base, idx[0], sc, off
 	case strings.HasSuffix(p, ")"):
 		i := strings.Index(p, "(")
 		if i < 0 {
